@@ -86,14 +86,16 @@ def evaluate(sid, checks, tier):
 def main(argv):
     if argv[0] == "add":
         src, prop, n = argv[1], argv[2], argv[3]
-        sid = "%s-m%s" % (prop, n)
+        dst = argv[4] if len(argv) > 4 else n
+        sid = "%s-m%s" % (prop, dst)
         d = os.path.join(SEEDED, sid)
         os.makedirs(d, exist_ok=True)
         shutil.copy(os.path.join(src, "m%s.diff" % n), os.path.join(d, "patch.diff"))
         shutil.copy(os.path.join(src, "m%s_demo.py" % n), os.path.join(d, "demo.py"))
         meta = json.load(open(os.path.join(src, "m%s_meta.json" % n)))
         meta = {"id": sid, "property": prop, "summary": meta.get("summary"), "needs": meta.get("needs"),
-                "files": meta.get("files"), "origin": "independent sub-agent given only the property text and a scratch worktree"}
+                "files": meta.get("files"), "origin": "independent sub-agent given only the property text and a scratch worktree",
+                "round": 1 if int(dst) <= 2 else 2}
         meta["confirmed"] = confirm(sid)
         json.dump(meta, open(os.path.join(d, "meta.json"), "w"), indent=1)
         c = meta["confirmed"]
